@@ -547,6 +547,52 @@ class _NP(types.ModuleType):
         return as_sym(a).ndim
 
     @staticmethod
+    def interp(x, xp, fp, left=None, right=None, **k):
+        """np.interp: 1-D piecewise-linear interpolation, clamped to fp[0] / fp[-1] outside xp (forks on the bracket)."""
+        xp_, fp_ = as_sym(xp), as_sym(fp)
+        n = xp_.shape[0]
+
+        def one(v):
+            v = SV.of(v)
+            if bool(v < xp_.a[0]):
+                return SV.of(left) if left is not None else fp_.a[0]
+            if bool(v > xp_.a[n - 1]):
+                return SV.of(right) if right is not None else fp_.a[n - 1]
+            for i in range(1, n):
+                if i == n - 1 or bool(v < xp_.a[i]):
+                    a0, a1 = xp_.a[i - 1], xp_.a[i]
+                    return fp_.a[i - 1] + (fp_.a[i] - fp_.a[i - 1]) * ((v - a0) / (a1 - a0))
+            return fp_.a[n - 1]
+
+        if isinstance(x, (SymArray, _np.ndarray, list, tuple)):
+            xx = as_sym(x)
+            out = _np.empty(xx.shape, dtype=object)
+            for idx in _np.ndindex(*xx.shape):
+                out[idx] = one(xx.a[idx])
+            return SymArray(out, "float")
+        return one(x)
+
+    @staticmethod
+    def putmask(a, mask, values):
+        """np.putmask(a, mask, values): a.flat[n] = values[n % len(values)] where mask.flat[n]"""
+        a = as_sym(a)
+        m = _np.asarray(as_sym(mask)).reshape(-1)  # forks on a symbolic mask
+        v = to_obj(values).reshape(-1)
+        if a.tag is not None:
+            ctx().events.append(("mutate-input", a.tag, core._where()))
+        flat = a.a.reshape(-1)
+        for i in range(flat.size):
+            if m[i]:
+                flat[i] = v[i % v.size]
+
+    @staticmethod
+    def array_equal(a, b, **k):
+        a, b = as_sym(a), as_sym(b)
+        if a.shape != b.shape:
+            return False
+        return NP.all(a == b)
+
+    @staticmethod
     def finfo(t):
         return _np.finfo(_real_dtype(t))
 
